@@ -1,20 +1,18 @@
 import DaeVerif.C03.Layout
-import DaeVerif.C02.Model
+import DaeVerif.C03.RouteOf
 import DaeVerif.Common.Proto
 /-!
 Line-protocol driver for C03.  The SAME op file is read by the native C driver
 (`harness/c/c03_driver.c`, which runs the real TC programs of `control/kern/tproxy.c`); the op
-grammar is documented there.  `route()` is instantiated with C02's `routeK` on the installed
-`routing_map` / `domain_routing_map` images.
+grammar is documented there.  `route()` is `rtOf` (`RouteOf.lean`): C02's `routeK` on the installed
+`routing_map` / `domain_routing_map` images — the very function the composition theorems of
+`Compose.lean` are about.
 -/
 open DaeVerif DaeVerif.Proto DaeVerif.C03
 
 structure St where
   w : World := {}
   maps : C02.KMaps := C02.KMaps.empty
-
-def routeOf (m : C02.KMaps) (i : RouteIn) : Int :=
-  C02.routeK .little m ⟨i.l4w, i.ipw, i.pname, i.dscp, i.isWan, i.sport, i.dport, i.saddr, i.daddr, i.mac⟩
 
 def hx (b : Bytes) : String := bytesToHex b
 
@@ -174,7 +172,7 @@ def handle (st : St) (line : String) : St × String :=
     | some hook, some l2, some proto, some lin, some pull, some iif, some ifx, some mark, some cookie, some sk, some bytes =>
       let s : Skb := ⟨⟨bytes, lin, pull != 0, proto⟩, iif, ifx, mark, cookie, sk⟩
       let w := st.w
-      let (w', o) := step (routeOf st.maps) w hook s (l2 != 0)
+      let (w', o) := step (rtOf st.maps) w hook s (l2 != 0)
       let redir := match o.redir with
         | none => "-"
         | some (i, f, p) => s!"{i}:{f}:{if p then 1 else 0}"
